@@ -27,6 +27,13 @@ checks = {
  "C07": ("B", "exhaustive enumeration of (tree, index options, path) against a stepwise-descent reference on the real code",
          "Every tree of the bounded family (leaf, nil, empty Stack, Condition(leaf), nested Stack / alias / pointer-to-alias / Condition(Stack) / Condition(alias)) x 4 placements of the negative/forward index options x every path of length 0..3 (quick) / 0..5 (thorough) with indices in [-1,3]; Traverse's value and flag are compared with a descent that takes one real Index step at a time, exactly as the statement defines it; the tree's raw dump must be unchanged afterwards.",
          "Trusted: Index, ConvertStack, ConvertCondition, Expression as single steps (covered by C01/C08/C12); bounded depth/width.", "§3 C07"),
+
+ "C19": ("B", "exhaustive enumeration of nil/non-nil patterns x scan limits x index options x nesting placements, with a compaction oracle",
+         "Every pattern of length 0..8 (quick) / 0..12 (thorough) over distinct tokens, scan limits {default,1,2,3,13} restricted to patterns whose nil runs are shorter than the limit, the four index-option settings, and seven placements (top, in Stack, alias, pointer to alias, Condition expression, Condition alias holding an alias next to a sibling, two levels deep); afterwards the stack must hold exactly the former non-nil elements in order, Err()==nil, parents/siblings intact, and a stack without nil must be untouched (raw dump). The pinned tree fails this for most patterns (recorded finding); the check recognises the recorded defect only when the wrong outcome equals what the pinned algorithm computes, so any other wrong outcome still fails.",
+         "Trusted: pinnedDefrag (transliteration of the recorded defect, used only to recognise it); VerifDump for 'untouched'.", "§3 C19"),
+ "C20": ("B", "exhaustive enumeration of expression trees x mutex placements with an unwrap-closure oracle and a lock model on the real code",
+         "Every tree of the bounded family (kinds, parenthetical flags, leaf/nil/empty/Stack/Condition(leaf)/Condition(Stack) children, all single-child chains up to length 4/5, aliases in the thorough tier) x mutex placement; after Reveal the depth-first leaf/Condition sequence must be identical, the result must be reachable from the input by unwrapping redexes only (receiver never unwrapped), normal forms equal, depth not larger; lock hooks report re-acquisition of a held mutex as deadlock and a mutex left held.",
+         "Trusted: the redex definition copied from the statement; confluence of unwrapping (argued in DESIGN.md).", "§3 C20"),
 }
 not_built = {f"C{i:02d}" for i in range(1,21)} - set(checks)
 m = {
